@@ -367,7 +367,11 @@ class _InstallWrapper(IpcCommand):
             source_stat: stat result for the source file
             dest: path to the dest file
         """
-        os.utime(dest, ns=(source_stat.st_atime_ns, source_stat.st_mtime_ns))
+        os.utime(
+            dest,
+            ns=(source_stat.st_atime_ns, source_stat.st_mtime_ns),
+            follow_symlinks=False,
+        )
 
     def _is_install_allowed(self, source, source_stat, dest):
         """Determine if installing source into dest should work.
